@@ -1614,6 +1614,10 @@ mod convert {
 
         /// Call [`LineProgram::end_sequence`] for the converted program.
         pub fn end_sequence(&mut self, address_offset: u64) {
+            // `LineProgram::end_sequence` uses the op_index of the current row.
+            if self.from_row.end_sequence() {
+                self.program.row.op_index = self.from_row.op_index();
+            }
             self.program.end_sequence(address_offset);
         }
 
